@@ -87,7 +87,8 @@ class ExonCorrector:
             if e.read_region[0] == SupplementaryMatchConstants.absent_position:
                 if e.event_type == MatchEventSubtype.fake_micro_intron_retention and \
                         self.params.correct_microintron_retention:
-                    event_map[-e.read_region[1]-1] = e
+                    # several micro introns may be retained in one read exon
+                    event_map.setdefault(-e.read_region[1]-1, []).append(e)
             else:
                 event_map[e.read_region[0]] = e
 
@@ -164,7 +165,8 @@ class ExonCorrector:
             if -i-1 in event_map:
                 # special case for fake IR
                 # logger.debug(event_map[-i-1].isoform_region)
-                new_introns.append(isoform_introns[event_map[-i-1].isoform_region[0]])
+                for fake_ir_event in sorted(event_map[-i-1], key=lambda x: x.isoform_region[0]):
+                    new_introns.append(isoform_introns[fake_ir_event.isoform_region[0]])
 
             if i not in event_map:
                 # TODO: check for reliability of splice sites
@@ -227,9 +229,10 @@ class ExonCorrector:
         last_exon_key = -len(corrected_introns) - 1
         if corrected_introns and last_exon_key in event_map:
             # fake IR inside the last read exon
-            fake_ir_intron = isoform_introns[event_map[last_exon_key].isoform_region[0]]
-            if fake_ir_intron[1] <= corrected_read_region[1]:
-                new_introns.append(fake_ir_intron)
+            for fake_ir_event in sorted(event_map[last_exon_key], key=lambda x: x.isoform_region[0]):
+                fake_ir_intron = isoform_introns[fake_ir_event.isoform_region[0]]
+                if fake_ir_intron[1] <= corrected_read_region[1]:
+                    new_introns.append(fake_ir_intron)
 
         return corrected_read_region, new_introns
 
